@@ -11,6 +11,7 @@
 -/
 import NiftyVerif.Props.C03
 import NiftyVerif.Lemmas.TranscComplex
+import NiftyVerif.Lemmas.ExprAdjC
 
 set_option linter.unusedSimpArgs false
 set_option linter.unusedVariables false
@@ -260,5 +261,155 @@ theorem lin_hasDerivAt_c (e : Ex ℂ) (wm : Bool) :
 example : HoloValid (.mul (.ptw .exp [] (.scale Complex.I (.var "a" 1))) (.var "a" 1)) (fun _ _ => 1 + Complex.I) := by
   refine ⟨⟨trivial, fun k i _ => ?_⟩, trivial⟩
   simp [PtwValidC]
+
+/-! ### adjoint = conjugate transpose over ℂ -/
+
+open NiftyVerif.ExprC in
+/-- holomorphic trees inside the box -/
+def WFBC (Ks : List String) (N : Nat) : Ex ℂ → Prop
+  | .var k _ => k ∈ Ks ∧ "" ∈ Ks
+  | .add a b => WFBC Ks N a ∧ WFBC Ks N b
+  | .sub a b => WFBC Ks N a ∧ WFBC Ks N b
+  | .mul a b => WFBC Ks N a ∧ WFBC Ks N b
+  | .scale _ a => WFBC Ks N a
+  | .addc _ _ a => WFBC Ks N a
+  | .mulc _ a => WFBC Ks N a
+  | .ptw _ _ a => WFBC Ks N a
+  | .lin m n _ a => WFBC Ks N a ∧ "" ∈ Ks ∧ m ≤ N ∧ n ≤ N
+  | .sum a => WFBC Ks N a ∧ "" ∈ Ks ∧ 0 < N ∧ DomOK a.dom Ks N
+  | .getKey k a => WFBC Ks N a ∧ k ∈ Ks ∧ "" ∈ Ks
+  | .putKey k a => WFBC Ks N a ∧ k ∈ Ks ∧ "" ∈ Ks
+  | .chain f g => WFBC Ks N f ∧ WFBC Ks N g
+  | .bil m na nb _ a b => WFBC Ks N a ∧ WFBC Ks N b ∧ "" ∈ Ks ∧ m ≤ N ∧ na ≤ N ∧ nb ≤ N
+  | _ => False
+
+theorem conjC_eq (z : ℂ) : Conj.conj z = (starRingEnd ℂ) z := rfl
+theorem single_eq_pick_c (v : Nat → ℂ) : single v = fun k i => if k = "" then v i else 0 := rfl
+
+open NiftyVerif.ExprC in
+/-- **adjoint = conjugate transpose** (complex inputs, holomorphic trees): `⟨y, J h⟩ = ⟨Jᴴ y, h⟩` for the Hermitian inner
+    product `⟨u, v⟩ = Σ conj(u)·v`, all tangents and cotangents -/
+theorem jac_adjoint_c (Ks : List String) (N : Nat) (hK : Ks.Nodup) (e : Ex ℂ) (wm : Bool) :
+    WFBC Ks N e → ∀ (ρ h y : MVal ℂ),
+      ipC Ks N y ((lin e ρ wm).jac h) = ipC Ks N ((lin e ρ wm).adj y) h := by
+  induction e with
+  | var k n =>
+    intro hw ρ h y
+    simp only [lin, single_eq_pick_c]
+    rw [ipC_pick_right Ks N hK "" hw.2, ipC_pick_left Ks N hK k hw.1]
+  | add a b iha ihb =>
+    intro hw ρ h y
+    simp only [lin]
+    rw [ipC_add_right, ipC_add_left, iha hw.1, ihb hw.2]
+  | sub a b iha ihb =>
+    intro hw ρ h y
+    simp only [lin]
+    rw [ipC_sub_right, ipC_sub_left, iha hw.1, ihb hw.2]
+  | mul a b iha ihb =>
+    intro hw ρ h y
+    simp only [lin, conjC_eq]
+    rw [ipC_add_right, ipC_add_left, ipC_mul, ipC_mul, ihb hw.2, iha hw.1]
+  | scale c a iha =>
+    intro hw ρ h y
+    simp only [lin, conjC_eq]
+    rw [ipC_mul Ks N y (fun _ _ => c), iha hw]
+  | addc c neg a iha =>
+    intro hw ρ h y
+    simp only [lin]
+    rw [ipC_mask, iha hw]
+  | mulc d a iha =>
+    intro hw ρ h y
+    simp only [lin, conjC_eq]
+    rw [ipC_mul Ks N y (fun _ i => ofList d i), iha hw]
+  | ptw f p a iha =>
+    intro hw ρ h y
+    simp only [lin, conjC_eq]
+    rw [ipC_mask_mul, iha hw]
+  | lin m n rows a iha =>
+    intro hw ρ h y
+    obtain ⟨hwa, h0, hm, hn⟩ := hw
+    simp only [lin, single_eq_pick_c, conjC_eq]
+    rw [← iha hwa, ipC_pick_right Ks N hK "" h0, ipC_pick_left Ks N hK "" h0]
+    rw [ExprC.rsum_congr N _ (fun i => if i < m then (starRingEnd ℂ) (y "" i) *
+        rsum n (fun j => mat rows i j * (lin a ρ wm).jac h "" j) else 0) (fun i _ => by split <;> simp)]
+    rw [ExprC.rsum_ite_lt m N hm]
+    rw [ExprC.rsum_congr N _ (fun j => if j < n then
+        rsum m (fun i => mat rows i j * (starRingEnd ℂ) (y "" i)) * (lin a ρ wm).jac h "" j else 0)
+      (fun j _ => by
+        split
+        · rw [conj_rsum]
+          congr 1
+          exact ExprC.rsum_congr m _ _ (fun i _ => by rw [map_mul, Complex.conj_conj])
+        · simp)]
+    rw [ExprC.rsum_ite_lt n N hn]
+    rw [ExprC.rsum_congr m _ (fun i => rsum n (fun j => (starRingEnd ℂ) (y "" i) * (mat rows i j * (lin a ρ wm).jac h "" j)))
+      (fun i _ => (ExprC.rsum_mul_left n _ _).symm)]
+    rw [ExprC.rsum_comm]
+    refine ExprC.rsum_congr n _ _ (fun j _ => ?_)
+    rw [show rsum m (fun i => mat rows i j * (starRingEnd ℂ) (y "" i)) * (lin a ρ wm).jac h "" j
+        = (lin a ρ wm).jac h "" j * rsum m (fun i => mat rows i j * (starRingEnd ℂ) (y "" i)) by ring,
+      ← ExprC.rsum_mul_left]
+    exact ExprC.rsum_congr m _ _ (fun i _ => by ring)
+  | sum a iha =>
+    intro hw ρ h y
+    obtain ⟨hwa, h0, hN, hd⟩ := hw
+    simp only [lin, csci_1]
+    rw [← iha hwa, ← contr_adj_one Ks N hK h0 hN a.dom hd]
+  | getKey k a iha =>
+    intro hw ρ h y
+    obtain ⟨hwa, hk, h0⟩ := hw
+    simp only [lin, single_eq_pick_c]
+    rw [← iha hwa, ipC_pick_right Ks N hK "" h0, ipC_pick_left Ks N hK k hk]
+  | putKey k a iha =>
+    intro hw ρ h y
+    obtain ⟨hwa, hk, h0⟩ := hw
+    simp only [lin, single_eq_pick_c]
+    rw [← iha hwa, ipC_pick_right Ks N hK k hk, ipC_pick_left Ks N hK "" h0]
+  | chain f g ihf ihg =>
+    intro hw ρ h y
+    simp only [lin]
+    rw [ihf hw.1, ihg hw.2]
+  | bil m na nb T a b iha ihb =>
+    intro hw ρ h y
+    obtain ⟨hwa, hwb, h0, hm, hna, hnb⟩ := hw
+    simp only [lin, single_eq_pick_c, conjC_eq]
+    rw [ipC_add_left, ← iha hwa, ← ihb hwb, ipC_pick_right Ks N hK "" h0, ipC_pick_left Ks N hK "" h0,
+      ipC_pick_left Ks N hK "" h0]
+    rw [ExprC.rsum_congr N _ (fun o => if o < m then (starRingEnd ℂ) (y "" o) * rsum na (fun i => rsum nb (fun j => ten T o i j *
+        ((lin a ρ wm).jac h "" i * (lin b ρ wm).val "" j + (lin a ρ wm).val "" i * (lin b ρ wm).jac h "" j))) else 0)
+      (fun o _ => by split <;> simp)]
+    rw [ExprC.rsum_ite_lt m N hm]
+    rw [ExprC.rsum_congr N _ (fun i => if i < na then
+        rsum m (fun o => rsum nb (fun j => ten T o i j * (lin b ρ wm).val "" j * (starRingEnd ℂ) (y "" o)))
+          * (lin a ρ wm).jac h "" i else 0)
+      (fun i _ => by
+        split
+        · rw [conj_rsum]
+          congr 1
+          refine ExprC.rsum_congr m _ _ (fun o _ => ?_)
+          rw [conj_rsum]
+          exact ExprC.rsum_congr nb _ _ (fun j _ => by rw [map_mul, Complex.conj_conj])
+        · simp)]
+    rw [ExprC.rsum_ite_lt na N hna]
+    rw [ExprC.rsum_congr N _ (fun j => if j < nb then
+        rsum m (fun o => rsum na (fun i => ten T o i j * (lin a ρ wm).val "" i * (starRingEnd ℂ) (y "" o)))
+          * (lin b ρ wm).jac h "" j else 0)
+      (fun j _ => by
+        split
+        · rw [conj_rsum]
+          congr 1
+          refine ExprC.rsum_congr m _ _ (fun o _ => ?_)
+          rw [conj_rsum]
+          exact ExprC.rsum_congr na _ _ (fun i _ => by rw [map_mul, Complex.conj_conj])
+        · simp)]
+    rw [ExprC.rsum_ite_lt nb N hnb]
+    exact ExprC.bil_adj_algebra m na nb (ten T) (fun o => (starRingEnd ℂ) (y "" o)) ((lin a ρ wm).val "")
+      ((lin a ρ wm).jac h "") ((lin b ρ wm).val "") ((lin b ρ wm).jac h "")
+  | vdot a b _ _ => intro hw; exact hw.elim
+  | sqnorm a _ => intro hw; exact hw.elim
+  | quad d a _ => intro hw; exact hw.elim
+  | gauss data icov a _ => intro hw; exact hw.elim
+  | const en d v => intro hw; exact hw.elim
+  | varcov n a b _ _ => intro hw; exact hw.elim
 
 end NiftyVerif.C03
